@@ -26,8 +26,10 @@ def single(paths, what):
 
 def wave_factor(repo, frm, to_name):
     f = repo.func(f'radiometry.{WAVE_CLASSES[frm]}.to')
-    _, paths, _ = analyse(repo, f, config={'waveunit': Const(to_name)})
-    p = single(paths, f'{f.key}({to_name!r})')
+    _, paths, _ = analyse(repo, f, config={'waveunit': Const(to_name)}, literal_tables=True)
+    # a look-up wrapped in try/except KeyError keeps the handler as a path of its own: the answer is the returning one
+    live = [q for q in paths if not (q.status == 'raise' and q.conds and all(fmt(c).startswith('except(') for c, _, _ in q.conds))]
+    p = single(live or paths, f'{f.key}({to_name!r})')
     if p.status != 'return' or not isinstance(p.ret, Poly) or p.ret.const_value() is None:
         return None, f
     return p.ret.const_value(), f
@@ -193,6 +195,27 @@ def run(chk, repo, tier):
     chk.ob('C14-c', 'D-freshness', fto.key, 'unit factors are evaluated per argument (not once before the loop)', not stale,
            f'conversion factor computed before the loop at {sorted(set(stale))}: it is stale once an earlier argument changed the unit'
            if stale else 'all factor look-ups are inside the loop', fto.loc())
+    # each of the three flux units is a density per wavelength: with any of them a change of wavelength unit rescales both
+    # the wavelengths and the values (decided with the unit as a fact, tables read by value)
+    for vu in ('photlam', 'flam', 'wlam'):
+        facts_vu = {nf.attr(S('self'), 'valueunit').single_atom(): Const(vu)}
+        cls_ = repo.cls('radiometry.Spectrum')
+        for unit_cls, unit_name in (('Photlam', 'photlam'), ('Flam', 'flam'), ('Wlam', 'wlam')):
+            if unit_name == vu:
+                facts_vu[nf.attr(nf.attr(S('self'), '_valueunit'), 'name').single_atom()] = Const(vu)
+        _, vpaths, _ = analyse(repo, fto, facts=facts_vu, literal_tables=True)
+        n_br, miss = 0, []
+        for lp_ in [l_ for q in vpaths for l_ in q.state.loops if l_['func'] == fto.key][:1]:
+            for bs in lp_['states']:
+                stores = {e.data['attr'] for e in bs.events[lp_['n_pre_events']:]
+                          if e.kind == 'write' and e.data.get('how') == 'attrstore' and root_is_self(e.target)}
+                if 'waveunit' in stores and 'valueunit' not in stores:
+                    n_br += 1
+                    if not {'wave', 'value'} <= stores:
+                        cs = ' & '.join(('' if pol else 'not ') + fmt(c)[:70] for c, pol, _ in bs.conds[lp_['n_pre_conds']:])
+                        miss.append(f'the wavelength unit is relabelled but {sorted({"wave", "value"} - stores)} stay as they are [{cs}]')
+        chk.ob('C14-c', 'T-table', fto.key, f'a spectrum in {vu} is rescaled as a density when its wavelength unit changes',
+               (not miss) if n_br else None, '; '.join(miss[:1]) or f'{n_br} wavelength-unit branch(es), all rescale wave and value', fto.loc())
     chk.ob('C14-c', 'N-reciprocal', fto.key, 'density branch', ok_w and n_w > 0,
            det_w or 'value is divided by exactly the factor that multiplies wave', fto.loc())
     chk.ob('C14-c', 'D-untouched', fto.key, 'unitless branch', ok_none and n_none > 0,
